@@ -408,6 +408,9 @@ class VgiAccessLogFormatter(VgiJsonFormatter):
             "error_type": obj.get("error_type", ""),
             "truncated": "record_too_large",
         }
+        if obj.get("stream_id"):
+            # Required by the schema for every stream record, sentinel form included.
+            sentinel["stream_id"] = obj["stream_id"]
         if sentinel["status"] == "error":
             err = obj.get("error_message")
             sentinel["error_message"] = err if isinstance(err, str) and err else "record_too_large"
